@@ -4,7 +4,7 @@ import os
 PID = "C13"
 THEOREM_FILE = "Properties/C13.v"
 # group B theorems live in their own file (./check reads THEOREM_FILE; to be wired in by the maintainer)
-EXTRA_THEOREM_FILES = ["Properties/C13b.v"]
+EXTRA_THEOREM_FILES = ["Properties/C13b.v", "Properties/C13csv.v"]
 NEEDS_KNUT = True
 
 _HERE = os.path.dirname(os.path.abspath(__file__))
